@@ -31,15 +31,15 @@ CHECKS = {
    text="Two or three concurrent client threads on overlapping configurations of one manager, every ordered pair over 6 call kinds, with cancel events; every handler releases early and is gated so the script can deliver each reply at any position of the history, including after its call returned or was cancelled; oracle: every reply observed by a quorum function or returned carries the observer's token and the node id it is filed under, at most once per node, nothing after return, one message id per call."),
  "C06": dict(cat="model_checking", ref="5.6", tech="stateless model checking with exhaustive enumeration of per-node skip subsets and node states; payload equality per server and untimed 'returns without waiting' oracle at quiescence",
    text="Every skip subset of the per-node function for n<=3 on 9 per-node call variants and 6 plain ones with thresholds targeted / targeted+1: each server must receive exactly f(request, i) once, skipped servers nothing, and completion and the Incomplete counts range over targeted nodes only. One-way calls x send-waiting on/off x {idle, blocked handlers, endpoints down, window full}: the call has returned at the first quiescent point with every handler still running, and with no-send-waiting even when its own message cannot be written."),
- "C07": dict(cat="fault_enumeration", ref="5.7", tech="stateless model checking with fault enumeration: every failing subset x failure kind, the fault placed before the call and as a free-running thread at every instant within the deviation bound",
+ "C07": dict(cat="model_checking", ref="5.7", tech="stateless model checking with fault enumeration: every failing subset x failure kind, the fault placed before the call and as a free-running thread at every instant within the deviation bound",
    text="n in {2,3} x failing subsets x {down at creation, crash, reset, crash+restart, handler error with 5 status codes} x thresholds x healthy replies before/after the fault, with the fault thread scheduled at every point between visible operations of the library within the deviation bound; back-off timers are fired to a horizon before the progress oracle; oracle: success iff the healthy replies satisfy the quorum function, Incomplete names each failing node exactly once with the handler's status or an unavailable-type error and consistent counts, the quorum function never sees a failed node, no call is left waiting for a node whose connection broke."),
  "C08": dict(cat="model_checking", ref="5.8", tech="stateless model checking with the context end as a free-running thread placed at every instant within the deviation bound; strict untimed progress oracle at quiescence (deadlock detection)",
    text="9 (12) call variants x node state {down, silent, window full, sender busy behind an earlier message with a never-ending context} x send buffer x {Canceled, DeadlineExceeded} x {already ended, ended at any instant}; at the quiescent state after the context ended - no timer fired, no handler returned - the call must have returned / its future or correctable be done, and any reported error must match the context's error under errors.Is. A stuck caller is a deadlock state of the explored system, found deterministically."),
  "C09": dict(cat="model_checking", ref="5.9", tech="stateless model checking of workloads with free-running cancel / fault / timer threads, followed by a probe call; deadlock (wedge) detection at quiescence",
    text="Workloads of one or two calls (correctable streams with 1..3 server replies and early / never / slow quorum functions, cancelled quorum calls, futures, correctables, RPCs, multicasts; concurrent and sequential) with cancel threads, an optional stream reset or crash+restart and a timer-firing thread, all placed by the explorer at every instant within the deviation bound; afterwards all back-off timers are fired and a probe RPC with a fresh context must be delivered and answered with its own stamped reply, with no library thread left blocked on a lock."),
- "C12": dict(cat="fault_enumeration", ref="5.12", tech="stateless model checking with Manager.Close as free-running thread(s) placed at every instant within the deviation bound relative to in-flight calls (crash-point style enumeration); thread-exit and deadlock oracles at quiescence",
+ "C12": dict(cat="model_checking", ref="5.12", tech="stateless model checking with Manager.Close as free-running thread(s) placed at every instant within the deviation bound relative to in-flight calls (crash-point style enumeration); thread-exit and deadlock oracles at quiescence",
    text="9 in-flight call variants with never-ending contexts (and pairs) x send buffer {0,1,2} x node state {connected, down, in back-off} x handler answers / never answers x one or two concurrent Close calls scheduled at every point between visible operations within the deviation bound, then a post-Close call of rotating type and a further Close; Close on a WithNoConnect manager. Oracle: no panic, every Close returns, every in-flight and post-Close call returns (error where the API has one), no client library goroutine alive and every connection closed at the end."),
- "C10": dict(cat="fault_enumeration", ref="5.10", tech="stateless model checking with exhaustive enumeration of stop/start/call scripts (fault sequences) and virtual back-off timers that the script fires or withholds",
+ "C10": dict(cat="model_checking", ref="5.10", tech="stateless model checking with exhaustive enumeration of stop/start/call scripts (fault sequences) and virtual back-off timers that the script fires or withholds",
    text="Every script of length <= 4 (5) over {stop, start, call} ending in a call, node initially up or down (down at creation included), 3 call kinds, blocking and non-blocking dial, with the back-off timers fired after every event or never; observation after each call happens at quiescence without firing a timer. Oracle: the call is delivered to the node's current incarnation, its reply arrives without any back-off timer firing once the handler has returned, every accepted stream carries general and per-node metadata and triggers the connect callback exactly once."),
  "C18": dict(cat="model_checking", ref="5.18", tech="stateless model checking with a state oracle read through an accessor (router tables) and the scheduler's thread table (per-call goroutines) at quiescent points",
    text="9 (13) call variants x 7 ways of ending x send buffer, every call repeated twice on the same manager, all schedules within the deviation bound; after each round, once every targeted node has answered or its connection has failed, the router count of every node must be zero (one per round only for a node that never answers), no per-call goroutine may be alive, and nothing grows between rounds."),
